@@ -1,13 +1,15 @@
 (* Reference semantics of the core language: an executable transcription of docs/SPECIFICATION.md sections 4-8
    (strict left-to-right operands and arguments, short-circuit and/or, static scoping with a per-activation
-   environment, block shadowing, immutability by default, 64-bit wrapping integers, truncating / and %).
+   environment, block shadowing, immutability by default, 64-bit wrapping integers, truncating / and %;
+   immutable arrays of ints: literal elements left to right, (at a i) evaluates a then i and is a fault
+   outside 0 <= i < length -- docs/ARRAY_SAFETY.md "always bounds-checked ... runtime panic").
    This is the ORACLE of C02/C03/C06; it deliberately shares no code with the engine models.  Definitions only. *)
 From Coq Require Import ZArith NArith List Bool.
 From NV Require Import Lang.Ast.
 Import ListNotations.
 Local Open Scope Z_scope.
 
-Inductive fault := FAssert | FDivZero | FDivOverflow.
+Inductive fault := FAssert | FDivZero | FDivOverflow | FOob.      (* FOob: array index outside 0 <= i < length *)
 
 Inductive res (A : Type) :=
   | Ok (a : A) (out : list N)
@@ -146,6 +148,24 @@ Fixpoint eval_expr (fuel : nat) (genv en : env) (e : expr) (out : list N) {struc
                     | _ => Stuck end)
               end
           end)
+    | EArr es =>
+        let fix eval_elems (l : list expr) (out0 : list N) : res (list value) :=
+          match l with
+          | [] => Ok [] out0
+          | a :: r => bind (eval_expr fuel' genv en a out0) (fun v out1 =>
+                      bind (eval_elems r out1) (fun vs out2 => Ok (v :: vs) out2))
+          end in
+        bind (eval_elems es out) (fun vs out1 =>
+          match ints_of vs with Some l => Ok (VArr l) out1 | None => Stuck end)
+    | EAt a i =>
+        bind (eval_expr fuel' genv en a out) (fun va out1 =>
+        bind (eval_expr fuel' genv en i out1) (fun vi out2 =>
+          match va, vi with
+          | VArr l, VInt k => match arr_get l k with Some z => Ok (VInt z) out2 | None => Fault FOob out2 end
+          | _, _ => Stuck end))
+    | ELen a =>
+        bind (eval_expr fuel' genv en a out) (fun va out1 =>
+          match va with VArr l => Ok (VInt (Z.of_nat (length l))) out1 | _ => Stuck end)
     end
   end
 with exec_stmt (fuel : nat) (genv en : env) (s : stmt) (out : list N) {struct fuel} : res (ctl * env) :=
